@@ -839,7 +839,40 @@ func (g *G) genC05(p *Plan, listing bool) {
 			}
 		}
 	}
-	if listing {
+	if listing && g.chance(0.012) {
+		// more versions than a page holds: a thousand keys of one version
+		// each between keys with several versions and delete markers
+		big := []Op{{K: "setver", B: b, Status: "Enabled"}}
+		for _, k := range []string{"a-first", "z-last"} {
+			for i, n := 0, g.n(1, 4); i < n; i++ {
+				big = append(big, Op{K: "put", B: b, Key: k, Body: g.body(g.smallSize())})
+			}
+			if g.chance(0.4) {
+				big = append(big, Op{K: "del", B: b, Key: k})
+			}
+		}
+		big = append(big, Op{K: "bulk", B: b, Max: g.pick2(996, 1000, 1001, 1203)})
+		for i, nl := 0, g.n(3, 6); i < nl; i++ {
+			op := Op{K: g.pick("lsversions", "walkversions"), B: b}
+			switch g.rng.Intn(4) {
+			case 0:
+				op.Max = g.pick2(0, 999, 1000, 1001, 100000)
+			case 1:
+				op.Delim = "/"
+				op.Max = g.pick2(0, 1, 2, 5)
+			case 2:
+				op.Prefix = g.pick("bulk/", "bulk/00", "b", "z")
+				op.Max = g.pick2(0, 500, 1000)
+			default:
+				op.Max = g.pick2(400, 700)
+			}
+			if op.K == "lsversions" && op.Max > 0 && op.Max < 100 {
+				op.K = "walkversions"
+			}
+			big = append(big, op)
+		}
+		ops = big
+	} else if listing {
 		prefixes := properPrefixes(keys)
 		for i, nl := 0, g.n(4, 14); i < nl; i++ {
 			op := Op{K: "lsversions", B: b}
